@@ -206,12 +206,15 @@ func checkC10(c *harness.Check) {
 		"position fen " + F10 + " moves a1a8",
 		"position fen r3k2r/8/8/8/8/8/8/R3K2R w KQkq - 0 0", // the same position with other clocks: full-move number 0 ...
 		"position fen r3k2r/8/8/8/8/8/8/R3K2R w KQkq - 5 1", // ... and a running half-move clock
+		"position fen r3k2r/8/8/8/8/8/8/R3K2R w K - 0 1", // two FENs that differ ONLY in the case of one letter (whose castling right)
+		"position fen r3k2r/8/8/8/8/8/8/R3K2R w k - 0 1",
+		"position  startpos   moves  g1f3 ", // the g1f3 line again with other white space between the tokens
 		"ucinewgame",
 		"position fen rnbqkbnr/pppppppp/8/8/8/8/PPPPPPPP/RNBQKBNR w KQkq - 4 3", // the very FEN the knight shuffle above reaches
 		"position fen 2kr3r/8/8/8/8/8/8/R4RK1 w - - 2 2",                        // the very FEN `F moves e1g1 e8c8` reaches
 	}
 	maxLen := c.Pick(4, 5)
-	c.Rule = fmt.Sprintf("all command words of length <= %d over an alphabet of %d lines built from two games: startpos with move lists that extend one another (incl. a knight shuffle that brings the start position back two and three times), another first move, a FEN with move lists that extend one another (castling both sides), the same FEN with other clocks (a longer full-move number that makes one line a textual prefix of another, full-move number 0, a running half-move clock), two FENs that spell out exactly the position (and clocks) a moves line of the alphabet reaches, and ucinewgame; verbatim repeats, shortenings and extensions all arise as words. Every line goes to a real uci.Driver followed by the isready/readyok hand-shake. Oracle after each word: driver alive; Engine.Position(), ply, clock, full moves, draw state equal the reference game of the LAST position command alone; full board snapshot equal to a fresh driver given only that command; every continuation to depth 2 on a fork reports draws exactly where the reference game does (the repetition history is compared, not just the position). distinct_nontrivial = distinct (last command, previous command) pairs", maxLen, len(alphabet))
+	c.Rule = fmt.Sprintf("all command words of length <= %d over an alphabet of %d lines built from two games: startpos with move lists that extend one another (incl. a knight shuffle that brings the start position back two and three times), another first move, a FEN with move lists that extend one another (castling both sides), the same FEN with other clocks (a longer full-move number that makes one line a textual prefix of another, full-move number 0, a running half-move clock), two FENs that spell out exactly the position (and clocks) a moves line of the alphabet reaches, two FENs that differ only in the case of one letter, a line repeated with other white space between its tokens, and ucinewgame; verbatim repeats, shortenings and extensions all arise as words. Every line goes to a real uci.Driver followed by the isready/readyok hand-shake. Oracle after each word: driver alive; Engine.Position(), ply, clock, full moves, draw state equal the reference game of the LAST position command alone; full board snapshot equal to a fresh driver given only that command; every continuation to depth 2 on a fork reports draws exactly where the reference game does (the repetition history is compared, not just the position). distinct_nontrivial = distinct (last command, previous command) pairs", maxLen, len(alphabet))
 	var words [][]string
 	var gen func(w []string)
 	gen = func(w []string) {
